@@ -441,6 +441,15 @@ class CursorAnalysis:
             return st
         for a, t in q.cond_atoms(f, c, kidx == 0):
             self.learn(st, a, t)
+            # a bool local that carries a test (`closed = *end == '?' && end[1] == '>'; if(closed) ...`): on its true edge the
+            # conjuncts of the definition that reaches this branch hold (nothing is learned from the false edge of a conjunction)
+            na = f.nodes[f.strip(a)]
+            if t and na["k"] == "DeclRefExpr" and na["ref"].get("dk") == "local" and na["ref"].get("t") in ("bool", "const bool"):
+                rd = q.reaching_def(f, na["ref"]["id"], f.strip(a))
+                if rd is not None:
+                    for a2, t2 in q.cond_atoms(f, rd, True):
+                        if f.nodes[f.strip(a2)]["k"] != "DeclRefExpr":
+                            self.learn(st, a2, t2)
         return st
 
     # ------------------------------------------------------------ driver
